@@ -97,6 +97,7 @@ func RunAll(run *hlib.Run, prop string, sigPrefixes []string, n int) {
 			run.Nontrivial(fmt.Sprintf("%v|%v|%d|%d|%d|%d", sc.Version, ks, len(sc.SlowAt), sc.Icepts, sc.MaxRecs, total))
 		}
 		if !res.CloseHang && !noTrace {
+			run.Emit("scmark cs "+strconv.FormatUint(s, 10), "ok")
 			run.Emit("creset", "ok")
 			for _, l := range res.Trace {
 				run.Emit(l, "ok")
